@@ -180,6 +180,15 @@ CHECKS = {
   note="Partial. Trusted: Coq kernel, vm_compute, trace validation, generator/battery. Link-level state is battery-only.",
   technique="Rocq proof (index invariant by induction over histories; quiescent = fresh refinement) over a hand model trace-validated after every event + long-lived vs fresh server query-battery differential",
   design="4/C10"),
+ "C15": dict(
+  text="Coq theorems (C15/Props.v, over the C10 workspace model): for unique unit names, any two enumerations of the same set of files (any order, repetitions) "
+       "give the same merged index, which is also what opening the files one by one on an empty server gives; that index is characterised exactly (each listed "
+       "file parsed from its disk text, each unit owned by its file); a refutation witness without the uniqueness premise. Worker count, hash seed and the "
+       "runtime (process pool, pickling) are exercised by a schedule sweep: permutations of the directory listing x worker counts up to 16 x hash seeds and "
+       "one-by-one opening orders, identical query battery compared with a reference schedule.",
+  note="Partial. Trusted: Coq kernel, vm_compute, the C10 model (trace-validated), the schedule runner. OS scheduling and pickling are not modelled.",
+  technique="Rocq proof (permutation invariance and exact characterisation of the start-up merge) over the trace-validated C10 model + schedule sweep differential (listing order, workers, hash seed, one-by-one opening)",
+  design="4/C15"),
 }
 NOT_YET = "not yet built in this round; see DESIGN.md section 8 (build order)"
 
